@@ -182,9 +182,9 @@ namespace {
     static const unsigned M_HS_ITER = M_GC_SET | M_UPS | M_ERSW | M_FNDW;
 
     template <class S, class Mk, unsigned Sup, int UK, class Rcu>
-    void go( const char* name ) { run_set_variant< SetAdapter<S, Mk, Sup, UK, Rcu, true> >( "C14", name, false, true ); }
+    void go( const char* name ) { run_set_variant< SetAdapter<S, Mk, Sup, UK, Rcu, true> >( "C14", name, false, true, 0, 1.0, 8, 24 ); }
     template <class A>
-    void gof( const char* name ) { run_set_variant<A>( "C14", name, false, true ); }
+    void gof( const char* name ) { run_set_variant<A>( "C14", name, false, true, 0, 1.0, 6, 7 ); }
 }
 
 int main( int argc, char** argv )
@@ -214,13 +214,13 @@ int main( int argc, char** argv )
         { typedef cc::MichaelHashSet<rcu_gpi, cc::LazyList<rcu_gpi, Item, ll_tr>, mset_tr<HashId>> S; go<S, MkMichaelSet<S, 4, 1, true>, M_HS, UPD_STD, rcu_gpi>( "MichaelHashSet<RCU_gpi,LazyList,4buckets>" ); }
 
         // SplitListSet: initial item count 1-4, load factor 1 (the table doubles many times)
-        { typedef cc::SplitListSet<HP, Item, split_tr<cc::michael_list_tag, ml_tr, HashId, true, lookup>> S; go<S, MkSplit<S, 1, 1>, M_HS, UPD_STD, void>( "SplitListSet<HP,michael,dyn,identity,lookup>" ); }
-        { typedef cc::SplitListSet<DHP, Item, split_tr<cc::lazy_list_tag, ll_tr, HashMod2, true, swar>> S; go<S, MkSplit<S, 2, 1>, M_HS, UPD_STD, void>( "SplitListSet<DHP,lazy,dyn,mod2,swar>" ); }
-        { typedef cc::SplitListSet<HP, Item, split_tr<cc::iterable_list_tag, il_tr, HashId, true, muldiv>> S; go<S, MkSplit<S, 1, 1>, M_HS_ITER, UPD_REPLACING, void>( "SplitListSet<HP,iterable,dyn,identity,muldiv>" ); }
-        { typedef cc::SplitListSet<HP, Item, split_tr<cc::michael_list_tag, ml_tr, HashHigh, false, lookup>> S; go<S, MkSplit<S, 4, 1>, M_HS, UPD_STD, void>( "SplitListSet<HP,michael,static4,highbits>" ); }
-        { typedef cc::SplitListSet<DHP, Item, split_tr<cc::iterable_list_tag, il_tr, HashConst, false, lookup>> S; go<S, MkSplit<S, 2, 1>, M_HS_ITER, UPD_REPLACING, void>( "SplitListSet<DHP,iterable,static2,const>" ); }
-        { typedef cc::SplitListSet<rcu_gpb, Item, split_tr<cc::michael_list_tag, ml_tr, HashId, true, lookup>> S; go<S, MkSplit<S, 1, 1>, M_HS, UPD_STD, rcu_gpb>( "SplitListSet<RCU_gpb,michael,dyn,identity>" ); }
-        { typedef cc::SplitListSet<rcu_gpt, Item, split_tr<cc::lazy_list_tag, ll_tr, HashMod2, true, lookup>> S; go<S, MkSplit<S, 2, 1, true>, M_HS, UPD_STD, rcu_gpt>( "SplitListSet<RCU_gpt,lazy,dyn,mod2>" ); }
+        { typedef cc::SplitListSet<HP, Item, split_tr<cc::michael_list_tag, ml_tr, HashId, true, lookup>> S; go<S, MkSplit<S, 64, 1>, M_HS, UPD_STD, void>( "SplitListSet<HP,michael,dyn,identity,lookup>" ); }
+        { typedef cc::SplitListSet<DHP, Item, split_tr<cc::lazy_list_tag, ll_tr, HashMod2, true, swar>> S; go<S, MkSplit<S, 32, 1>, M_HS, UPD_STD, void>( "SplitListSet<DHP,lazy,dyn,mod2,swar>" ); }
+        { typedef cc::SplitListSet<HP, Item, split_tr<cc::iterable_list_tag, il_tr, HashId, true, muldiv>> S; go<S, MkSplit<S, 64, 1>, M_HS_ITER, UPD_REPLACING, void>( "SplitListSet<HP,iterable,dyn,identity,muldiv>" ); }
+        { typedef cc::SplitListSet<HP, Item, split_tr<cc::michael_list_tag, ml_tr, HashHigh, false, lookup>> S; go<S, MkSplit<S, 16, 2>, M_HS, UPD_STD, void>( "SplitListSet<HP,michael,static4,highbits>" ); }
+        { typedef cc::SplitListSet<DHP, Item, split_tr<cc::iterable_list_tag, il_tr, HashConst, false, lookup>> S; go<S, MkSplit<S, 32, 1>, M_HS_ITER, UPD_REPLACING, void>( "SplitListSet<DHP,iterable,static2,const>" ); }
+        { typedef cc::SplitListSet<rcu_gpb, Item, split_tr<cc::michael_list_tag, ml_tr, HashId, true, lookup>> S; go<S, MkSplit<S, 64, 1>, M_HS, UPD_STD, rcu_gpb>( "SplitListSet<RCU_gpb,michael,dyn,identity>" ); }
+        { typedef cc::SplitListSet<rcu_gpt, Item, split_tr<cc::lazy_list_tag, ll_tr, HashMod2, true, lookup>> S; go<S, MkSplit<S, 32, 1, true>, M_HS, UPD_STD, rcu_gpt>( "SplitListSet<RCU_gpt,lazy,dyn,mod2>" ); }
 
         // FeldmanHashSet: minimal widths; keys in the low bits (differ in one chunk) or shifted to the high bits
         { typedef cc::FeldmanHashSet<HP, FItem<uint8_t>, feld_tr<uint8_t>> S; gof< FeldmanAdapter<S, uint8_t, 2, 2, 0, void> >( "FeldmanHashSet<HP,uint8,head2,array2,lowbits>" ); }
